@@ -20,7 +20,7 @@ def tokens_with_text(text):
 def randcase(rng, s):
     return "".join(c.upper() if rng.random() < 0.5 else c.lower() for c in s)
 
-def variant(rng, text, mode):
+def variant(rng, text, mode, WS_RUNS=WS_RUNS):
     """re-spell one accepted filter: mode in {"ws", "case", "bws", "all"}"""
     toks = tokens_with_text(text)
     out = []
@@ -128,6 +128,11 @@ def run(ctx):
     base = list(gens.VALID_FILTERS) + ["b1 eq TRUE", "dt1 gt 2020-01-01T10:00:00Z", "f1 lt 1.5e3", "dt1 gt 2020-01-01T10:00:00.5+02:00 and b1 ne false",
                                        "s1 in ('a', 'b') and not (i1 in (1, 2))", "x eq duration'P1DT2H3M4.5S'", "not b1 and not contains(s1, 'a')", "- i1 lt -2 add 3",
                                        "(i1 add 2) mul 3 gt 4", "kids/all(k: k/x gt 0 or k/x eq null)", "geo.intersects(geo1, geography'POINT(1 2)')"]
+    # literals whose CONTENT holds whitespace runs (a re-layout of the filter around them never touches them) and keyword look-alikes
+    WS_LITERALS = ["s1 eq 'John  Smith'", "s1 eq 'a\tb' or s1 eq ' lead' or s1 eq 'trail  '", "contains(s1, 'x  y') and s1 ne 'a\nb'", "s1 in ('a  b', ' ', '\t', 'x\r\ny')",
+                   "geo.intersects(geo1, geography'POINT(1  2)')", "s1 eq 'a  AND  b' and i1 eq 1", "concat(s1, '  ') eq 'a  ' and not (s1 eq 'NOT  x')",
+                   "kids/any(k: k/s eq 'p  q')", "f.g(p='a  b', q=s1)", "s1 eq 'it''s  ok'"]
+    base += WS_LITERALS
     g = gens_typed.TypedGen(rng, fields={**gens_typed.FIELDS, "time": ["tm1"], "coll": ["c1"]})
     trees = [g.gen("bool", rng.randint(1, 4)) for _ in range(1500 if ctx.thorough else 250)]
     outs = driver.run_batch([driver.req("refprint", "min", "000000", enc(t)) for t in trees])
@@ -148,6 +153,15 @@ def run(ctx):
                 continue
             if v not in seen:
                 seen.add(v); cases.append((f, v, mode))
+        # one whitespace kind at a time, everywhere (a line break somewhere in the filter, tabs only, ...)
+        for runs in ((["\n"], ["\r\n"], ["\t"], ["\r"]) if (ctx.thorough or f in WS_LITERALS) else (["\n"],)):
+            for mode in ("ws", "all"):
+                try:
+                    v = variant(rng, f, mode, runs)
+                except Exception:  # noqa
+                    continue
+                if v not in seen:
+                    seen.add(v); cases.append((f, v, mode))
     common.correspond(ctx, "parse-variants", cases, real_fn=lambda c: impl.real_parse(c[1], lx, ps),
                       model_reqs=lambda c: driver.req("parse", hexs(c[1])[1:-1]),
                       nontrivial=lambda c, r: r.startswith("ok"), describe=lambda c: {"canonical": c[0], "variant": c[1], "mode": c[2]},
